@@ -22,6 +22,7 @@ package main
 import (
 	"context"
 	"encoding/json"
+	"errors"
 	"fmt"
 	"io"
 	"os"
@@ -33,6 +34,7 @@ import (
 	"time"
 
 	"github.com/cloudwego/eino/callbacks"
+	"github.com/cloudwego/eino/compose"
 	"github.com/cloudwego/eino/schema"
 
 	"verif/harness/lib"
@@ -61,8 +63,8 @@ type SOp struct {
 	Via    string  `json:"via,omitempty"`   // append: node | graph | direct
 	Lo     int     `json:"lo,omitempty"`    // alias: the new unit is made from s[lo:hi] of the slice the caller passed for Parent
 	Hi     int     `json:"hi,omitempty"`
-	U      int     `json:"u,omitempty"`     // on: unit
-	T      int     `json:"t,omitempty"`     // on: timing code
+	U      int     `json:"u,omitempty"` // on: unit
+	T      int     `json:"t,omitempty"` // on: timing code
 }
 
 // GOpt is one compose.WithCallbacks(hs...) option, possibly designated.
@@ -78,8 +80,8 @@ type GNode struct {
 	Kind    string     `json:"kind"` // lambda | pass | sub | tools
 	Natives int        `json:"natives,omitempty"`
 	Fails   bool       `json:"fails,omitempty"`
-	Intr    int        `json:"intr,omitempty"` // lambda: the first Intr executions return compose.InterruptAndRerun
-	SelfCB  bool       `json:"selfcb,omitempty"`  // the lambda fires its callbacks itself (WithLambdaCallbackEnable)
+	Intr    int        `json:"intr,omitempty"`   // lambda: the first Intr executions return compose.InterruptAndRerun
+	SelfCB  bool       `json:"selfcb,omitempty"` // the lambda fires its callbacks itself (WithLambdaCallbackEnable)
 	DelayUs int        `json:"delay,omitempty"`
 	Chunks  int        `json:"chunks,omitempty"`
 	Shared  int        `json:"shared,omitempty"` // >0: nodes with the same value are the same *Lambda object
@@ -125,6 +127,7 @@ type evt struct {
 	Comp    string `json:"comp,omitempty"`
 	Payload string `json:"payload,omitempty"`
 	Full    bool   `json:"-"` // the payload was read completely
+	L       int    `json:"-"` // payload label (graph cases): see lblIn .. lblOther
 }
 
 type sink struct {
@@ -161,8 +164,23 @@ func (r *recH) OnEnd(ctx context.Context, info *callbacks.RunInfo, out callbacks
 	return ctx
 }
 func (r *recH) OnError(ctx context.Context, info *callbacks.RunInfo, err error) context.Context {
-	r.s.add(r.spec.ID, 2, info, "", false)
+	r.s.add(r.spec.ID, 2, info, errClass(err), true)
 	return ctx
+}
+
+// errClass: what kind of error a unit ended with
+func errClass(err error) string {
+	switch {
+	case err == nil:
+		return "nil"
+	case errors.Is(err, compose.InterruptAndRerun) || strings.Contains(err.Error(), "interrupt happened"):
+		return "interrupt"
+	case errors.Is(err, errNode):
+		return "failure"
+	case strings.HasPrefix(err.Error(), "payload:"):
+		return err.Error()
+	}
+	return "error"
 }
 func (r *recH) OnStartWithStreamInput(ctx context.Context, info *callbacks.RunInfo, in *schema.StreamReader[callbacks.CallbackInput]) context.Context {
 	e := r.s.add(r.spec.ID, 3, info, "", false)
@@ -372,7 +390,7 @@ type engine struct{}
 
 func (engine) ID() string { return "C10" }
 func (engine) CoqHeader() string {
-	return "From Eino Require Import Base.Util Base.GoSlice Model.Callbacks Model.CallbacksStream Model.CallbacksSched Model.CallbacksResume Corr.C10.\nLocal Open Scope N_scope.\n"
+	return "From Eino Require Import Base.Util Base.GoSlice Model.Callbacks Model.CallbacksStream Model.CallbacksSched Model.CallbacksResume Model.CallbacksPayload Corr.C10.\nLocal Open Scope N_scope.\n"
 }
 func (engine) CoqCaseType() string { return "ccase" }
 
